@@ -38,6 +38,8 @@ EXTRA_LATTICES = {
     "rhombflat": [[4, -1, -1], [-1, 4, -1], [-1, -1, 4]],        # rhombohedral, obtuse
     "rhombsharp": [[4, 3, 3], [3, 4, 3], [3, 3, 4]],             # rhombohedral, very acute
     "cmono": _gram([(2, 1, 0), (2, -1, 0), (1, 0, 3)]),          # base-centred monoclinic
+    "hextilt": [[2, -1, 1], [-1, 2, 1], [1, 1, 5]],              # hexagonal P described with c' = c + a1 + a2
+    "sctilt": _gram([(1, 0, 0), (0, 1, 0), (1, 1, 1)]),          # simple cubic described with a skewed third vector
     "obl2": [[5, 2], [2, 7]],
     "crect2": _gram([(2, 1), (2, -1)]),
 }
